@@ -141,6 +141,42 @@ def check(run, replay=None):
         if sorted(ia) != sorted(ib):
             run.oracle_fail("reordering methods / override attributes changes the entry points: %s -> %s" % (sorted(ia), sorted(ib)),
                             {"level": "L1", "program": a["item"], "reordered": b["item"]})
+    # ---- the overlap check that decides whether a contract with several `sv::messages` compiles: the name lists reach it
+    # in declaration order of the interfaces (the contract's own list last); reordering the interfaces permutes the lists
+    # and must never change the verdict (run on the real const fn through the run-time library harness)
+    from .. import libdiff
+    names = ["burn", "burn_from", "mint", "transfer", "a", "ab", "abc", "send", "send_from", "x"]
+    groups = []
+    for _ in range(400 if thorough else 120):
+        n = rng.choice([2, 3, 3, 4])
+        ls = [sorted(set(rng.sample(names, rng.randint(1, 4))), key=lambda x: x.encode()) for _ in range(n)]
+        if rng.random() < 0.5:                     # mostly disjoint otherwise: force exactly one shared name
+            seen = set()
+            ls = [[x for x in l if not (x in seen or seen.add(x))] or ["only%d" % i] for i, l in enumerate(ls)]
+            if rng.random() < 0.7:
+                i, j = rng.sample(range(n), 2)
+                shared = rng.choice(ls[i])
+                ls[j] = sorted(set(ls[j] + [shared]), key=lambda x: x.encode())
+        perms = [ls]
+        for _ in range(3):
+            head = ls[:-1]
+            rng.shuffle(head)
+            perms.append(head + [ls[-1]])           # interfaces reordered, contract last
+        groups.append(perms)
+    flat = [p for g in groups for p in g]
+    obs = libdiff.run([{"op": "intersect", "lists": l} for l in flat], tag="c14o")
+    k0 = 0
+    for g in groups:
+        outs = [obs[k0 + i].get("outcome", "error") for i in range(len(g))]
+        k0 += len(g)
+        run.count(len(g))
+        run.nontriv(("c14o", json.dumps(g[0])))
+        run.dist("overlap_reorder:%s" % outs[0])
+        for l, o in zip(g[1:], outs[1:]):
+            if o != outs[0]:
+                run.oracle_fail("reordering the interfaces changes the verdict of the overlap check: %s for %s, %s for %s" % (
+                    outs[0], json.dumps(g[0]), o, json.dumps(l)), {"level": "L3", "lists": g[0], "reordered": l})
+                break
     # ---- reply tables
     tables = [replies.gen_table(rng, 0.75) for _ in range(1000 if thorough else 150)]
     progs, owner = [], []
